@@ -416,4 +416,20 @@ example :
         .pub [(0, 100), (2, 102)], .forward, .tick] : List (Ev Nat))).sent.map (·.targets))
       = [[(2, 102)]] := by decide
 
+/-! ### a queue that drops what does not fit (seeded change C16-rAm1) -/
+
+/-- `bounded(cap)` + `try_send` with the result ignored: an entry that does not fit is dropped -
+mutation or membership change alike. -/
+def enqueueBounded {α : Type} (cap : Nat) (d : Dist α) (op : Op α) : Dist α :=
+  if d.queue.length < cap then d.enqueue op else d
+
+/-- Witness: behind a burst that fills the queue a join is dropped and the next tick - and every later
+one: nobody sends the change again - does not know the member; the unbounded queue of the code
+applies it (`tick_spec` / `pipeline_tracks` hold for EVERY queue length because nothing is dropped). -/
+theorem bounded_queue_loses_membership_change :
+    let burst : List (Op Nat) := [.mutation (.put "ks" 1), .mutation (.put "ks" 2)]
+    let join : Op Nat := .change ⟨[(3, 103)], []⟩
+    (((burst ++ [join]).foldl (enqueueBounded 2) ({} : Dist Nat)).tick).1.live = [] ∧
+    (((burst ++ [join]).foldl Dist.enqueue ({} : Dist Nat)).tick).1.live = [(3, 103)] := by decide
+
 end Datacake.C16b
